@@ -9,7 +9,11 @@ REPO="${2:-${VERIF_REPO:-/repo}}"
 HERE="$(cd "$(dirname "${BASH_SOURCE[0]}")" && pwd)"
 OUTROOT="${3:-${VERIF_BUILD:-$HERE/../.build}}"
 L="$REPO/ciderpress/lib"
-OUT="$OUTROOT/$VARIANT"
+# one build directory per repository root, so that scratch copies never replace /repo's build
+REPO_REAL="$(cd "$REPO" && pwd -P)"
+if [ "$REPO_REAL" = "/repo" ]; then SUB=""; else SUB="alt_$(echo -n "$REPO_REAL" | sha1sum | cut -c1-10)/"; fi
+OUT="$OUTROOT/$SUB$VARIANT"
+mkdir -p "$(dirname "$OUT")"
 PYSCF_DEPS="$(/venv/bin/python -c 'import os,pyscf;print(os.path.join(os.path.dirname(pyscf.__file__),"lib","deps"))')"
 CC="${CC:-gcc}"
 case "$VARIANT" in
